@@ -144,6 +144,45 @@ def admit(rate: int, dur: int, hcap: int, hused: int, ccap: int, cused: int, r0:
     return wit.verdict(t)
 
 
+def free_mid_tag(rX, dX, rY, dY, got, hcap, other):
+    """a workflow completes (its data is freed) while another observation is in the middle of its ingest"""
+    wit.begin()
+    dX, dY, got = cz(dX, 1, 3), cz(dY, 2, 4), cz(got, 1, 3)
+    env, buf, hot, cold = mk(hcap, other, 10, 0, 10 ** 9)
+    X = Observation('X', 0, dX, 1, 'wf', rX)
+    X.status = RunStatus.RUNNING
+    p = env.process(buf.ingest_data_stream(X))
+    env.run(env.now + dX + 1)
+    hot.next_observation_for_processing()            # X is handed to the scheduler (stored -> scheduled)
+    Y = Observation('Y', 0, dY, 1, 'wf', rY)
+    Y.status = RunStatus.RUNNING
+    env.process(buf.ingest_data_stream(Y))
+    env.run(env.now + got)                           # Y has delivered `got` of its dY steps
+    wit.reach('removal-during-ingest')
+    before = hot.current_capacity
+    if not buf.mark_observation_finished(X):
+        return 'C07/scheduled-observation-not-removed'
+    if hot.current_capacity != before + rX * dX:
+        return 'C07/removal-does-not-free-exactly-the-data'
+    if hot.total_capacity - hot.current_capacity != other + Y.total_data_size:
+        return 'C07/used-space-differs-from-resident-data'
+    env.run(env.now + dY + 2)
+    if hot.total_capacity - hot.current_capacity != other + rY * dY or Y.total_data_size != rY * dY:
+        return 'C07/used-space-differs-from-resident-data'
+    return None
+
+
+def free_mid(rX: int, dX: int, rY: int, dY: int, got: int, hcap: int, other: int) -> bool:
+    """
+    pre: rX >= 1 and rY >= 1 and 1 <= dX <= 3 and 2 <= dY <= 4 and 1 <= got < dY and other >= 0
+    pre: other + rX * dX + rY * dY <= hcap
+    post: _
+    """
+    t = free_mid_tag(rX, dX, rY, dY, got, hcap, other)
+    wit.note(t, rX=rX, dX=dX, rY=rY, dY=dY, got=got, hcap=hcap, other=other)
+    return wit.verdict(t)
+
+
 def overlap_tag(r1, r2, s2, d1, d2, hcap, ccap, rmax):
     """two observations through the real admission path; hot free space after every step"""
     wit.begin()
@@ -189,10 +228,11 @@ def warmup():
     ingest_tag(3, 2, 100, 0, 5)
     admit_tag(3, 2, 100, 0, 100, 0, 2, 2, 1)
     overlap_tag(3, 4, 1, 2, 2, 100, 100, 10)
+    free_mid_tag(3, 2, 4, 3, 1, 100, 5)
 
 
 def shards(tier, prop):
     T = 200 if tier == 'quick' else 1200
-    out = [{'fn': f, 'cond_timeout': T, 'path_timeout': 40} for f in ('ingest', 'admit', 'overlap', 'reject')]
-    out += [{'fn': f, 'cond_timeout': 40, 'twin': True} for f in ('ingest', 'admit', 'overlap', 'reject')]
+    out = [{'fn': f, 'cond_timeout': T, 'path_timeout': 40} for f in ('ingest', 'admit', 'overlap', 'reject', 'free_mid')]
+    out += [{'fn': f, 'cond_timeout': 40, 'twin': True} for f in ('ingest', 'admit', 'overlap', 'reject', 'free_mid')]
     return out
